@@ -86,7 +86,7 @@ def c03_1(ck, prog):
 def c03_2(ck, prog):
     r = ck.rule('C03.2', 'the sender stamped in bus_dispatch is the connection\'s own unique name '
                 '(or the fixed not-active placeholder)', 'TS',
-                breaks='a message is stamped with another connection\'s name', floor=2)
+                breaks='a message is stamped with another connection\'s name', floor=1)
     fn = prog.fn('bus_dispatch', 'bus/dispatch.c')
     id2call = {c['id']: c for b, i, c in fn.calls()}
     seen = {}
